@@ -1,3 +1,4 @@
+import GoRes.Model.Discipline
 import GoRes.Model.Pool
 import GoRes.Lemmas.Pool
 /-! # C03 — Shutdown always completes, drains in-flight work, and allows restart
@@ -185,6 +186,24 @@ theorem restart (acts : List Act) (s : St) (h : run init acts = some s) (hp : s.
       s'.workers = List.replicate n .idle := by
   have hq := (Inv.reachable h).quiet hp
   exact ⟨served s n, by rw [step_serve, if_pos ⟨hp, hq.2⟩]; rfl, rfl, rfl, rfl, rfl⟩
+
+/-! ## start/stop against the source (regenerated on every run)
+
+`Shutdown` clears `nc` and `inCh`.  The model lets `Shutdown` run as soon as the service counts as
+started, which in the Go code is *before* `serve` has subscribed: `serve` and `subscribe` must
+therefore not read those fields from then on (a `Shutdown` completing in that window used to leave
+`Serve` with a nil connection), and the queue state is reset before the first worker is started. -/
+
+open GoRes.Discipline in
+theorem serve_does_not_touch_cleared_fields_once_started :
+    (Generated.sourceOrder.lookup "Service.serve").map serveOrderOk = some true ∧
+    (Generated.sourceOrder.lookup "Service.subscribe").map subscribeOrderOk = some true := by
+  decide +kernel
+
+open GoRes.Discipline in
+theorem shutdown_cas_first_stopped_last :
+    (Generated.sourceOrder.lookup "Service.Shutdown").map shutdownOrderOk = some true := by
+  decide +kernel
 
 /-! ## the window the fix closed, as a concrete schedule: a submission passes the state check,
 `Shutdown` closes the queue while a worker is busy, then the submission takes the lock — it is
